@@ -23,17 +23,21 @@
 // redirected for the Shark headers only.
 namespace c17rec {
 	static bool on = false;
-	struct Call { long mp; std::vector<long> idx; };
+	struct Call { long mp; std::vector<long> idx; std::vector<long> pre; std::vector<double> keys; };   // idx/keys: after the call, pre: before
 	static std::vector<Call> calls;
 	template<class E> auto index_of(E const& e, int) -> decltype((long)e.value.index()) { return (long)e.value.index(); }
 	template<class E> long index_of(E const&, long) { return -1; }
+	template<class E> auto key_of(E const& e, int) -> decltype((double)e.key) { return (double)e.key; }
+	template<class E> double key_of(E const&, long) { return 0.0; }
 }
 namespace std {
 	template<class It> void c17_nth_element(It b, It n, It e) {
+		c17rec::Call c;
+		if (c17rec::on) for (It i = b; i != e; ++i) c.pre.push_back(c17rec::index_of(*i, 0));
 		std::nth_element(b, n, e);
 		if (c17rec::on) {
-			c17rec::Call c; c.mp = (long)(n - b);
-			for (It i = b; i != e; ++i) c.idx.push_back(c17rec::index_of(*i, 0));
+			c.mp = (long)(n - b);
+			for (It i = b; i != e; ++i) { c.idx.push_back(c17rec::index_of(*i, 0)); c.keys.push_back(c17rec::key_of(*i, 0)); }
 			c17rec::calls.push_back(c);
 		}
 	}
@@ -71,6 +75,45 @@ static void dumpKD(KDTree<RealVector> const* t, std::ostream& out) {
 		dumpKD((KDTree<RealVector> const*)t->left(), out); out << ")(";
 		dumpKD((KDTree<RealVector> const*)t->right(), out); out << ")";
 	}
+}
+
+static std::string g17(double x) { char b[40]; std::snprintf(b, sizeof b, "%.17g", x); return b; }
+
+// LC-tree: L i,j | N[<threshold>;<normal_0>,<normal_1>,..](left)(right)     (doubles as %.17g, exact round trip)
+static void dumpLC(LCTree<RealVector> const* t, std::ostream& out) {
+	if (t->isLeaf()) {
+		out << "L";
+		for (std::size_t i = 0; i < t->size(); ++i) out << (i ? "," : "") << t->index(i);
+	} else {
+		out << "N[" << g17(t->threshold()) << ";";
+		for (std::size_t d = 0; d < t->m_normal.size(); ++d) out << (d ? "," : "") << g17(t->m_normal(d));
+		out << "](";
+		dumpLC((LCTree<RealVector> const*)t->left(), out); out << ")(";
+		dumpLC((LCTree<RealVector> const*)t->right(), out); out << ")";
+	}
+}
+// KHC-tree: L i,j | N[<threshold>;<positive index>;<negative index>;<m_normalInvNorm>](left)(right)
+template<class T> static void dumpKHC(T const* t, std::ostream& out) {
+	if (t->isLeaf()) {
+		out << "L";
+		for (std::size_t i = 0; i < t->size(); ++i) out << (i ? "," : "") << t->index(i);
+	} else {
+		out << "N[" << g17(t->threshold()) << ";" << t->mep_positive.index() << ";" << t->mep_negative.index() << ";" << g17(t->m_normalInvNorm) << "](";
+		dumpKHC((T const*)t->left(), out); out << ")(";
+		dumpKHC((T const*)t->right(), out); out << ")";
+	}
+}
+// squaredDistanceLowerBound(q) of every node, pre-order
+static void dumpBounds(BinaryTree<RealVector> const* t, RealVector const& q, std::ostream& out, bool& first) {
+	out << (first ? "" : ",") << g17(t->squaredDistanceLowerBound(q)); first = false;
+	if (!t->isLeaf()) { dumpBounds(t->left(), q, out, first); dumpBounds(t->right(), q, out, first); }
+}
+
+// distanceFromPlane(q) = funct(q) - threshold of every inner node, pre-order
+static void dumpPlanes(BinaryTree<RealVector> const* t, RealVector const& q, std::ostream& out, bool& first) {
+	if (t->isLeaf()) return;
+	out << (first ? "" : ",") << g17(t->distanceFromPlane(q)); first = false;
+	dumpPlanes(t->left(), q, out, first); dumpPlanes(t->right(), q, out, first);
 }
 
 // number of (inner node, point) pairs with the point stored on the wrong side of the node's plane
@@ -128,13 +171,28 @@ int main(int argc, char** argv) {
 				rview.reset(new View(w->reg.inputs()));
 				w->poly.reset(new PolynomialKernel<RealVector>(2, 1.0));
 				TreeConstruction tc = bucket ? TreeConstruction(0, (unsigned int)bucket) : TreeConstruction();
-				c17rec::calls.clear(); c17rec::on = (w->kind == "kd");
+				c17rec::calls.clear(); c17rec::on = true;
 				w->tree.reset(build(w->kind, w->cls.inputs(), w->view.get(), *w, tc));
 				c17rec::on = false;
 				w->rtree.reset(build(w->kind, w->reg.inputs(), rview.get(), *w, tc));
 				out << "D n=" << w->n << " nodes=" << w->tree->nodes();
 				if (w->kind == "kd") { out << " tree="; dumpKD((KDTree<RealVector> const*)w->tree.get(), out); }
+				if (w->kind == "lc") { out << " ptree="; dumpLC((LCTree<RealVector> const*)w->tree.get(), out); }
+				if (w->kind == "khc" || w->kind == "khc2") { out << " ptree="; dumpKHC((KHCTree<View> const*)w->tree.get(), out); }
 				out << " misplaced=" << misplaced(w->tree.get(), w->pts);
+				if (w->kind != "kd") {       // projection trees: <median position>:<indices after>:<indices before>:<keys after> per std::nth_element call
+					out << " pnth=";
+					for (std::size_t c = 0; c < c17rec::calls.size(); ++c) {
+						c17rec::Call const& k = c17rec::calls[c];
+						out << (c ? ";" : "") << k.mp << ":";
+						for (std::size_t i = 0; i < k.idx.size(); ++i) out << (i ? "," : "") << k.idx[i];
+						out << ":";
+						for (std::size_t i = 0; i < k.pre.size(); ++i) out << (i ? "," : "") << k.pre[i];
+						out << ":";
+						for (std::size_t i = 0; i < k.keys.size(); ++i) out << (i ? "," : "") << g17(k.keys[i]);
+					}
+					if (c17rec::calls.empty()) out << "-";
+				}
 				if (w->kind == "kd") {       // one entry per std::nth_element call: <median position>:<indices after the call>
 					out << " nth=";
 					for (std::size_t c = 0; c < c17rec::calls.size(); ++c) {
@@ -151,8 +209,14 @@ int main(int argc, char** argv) {
 					for (std::size_t i = 0; i < w->n; ++i) {
 						IterativeNNQuery<CView>::result_type r = query.next();
 						out << (i ? ";" : "") << sc(r.first) << ":" << r.second << ":" << query.queuesize() << ":";
-						if (query.m_squaredRadius > 1e99) out << "inf"; else out << sc2(query.m_squaredRadius);
+						if (query.m_squaredRadius > 1e99) out << "inf";
+					else if (w->kind == "kd") out << sc2(query.m_squaredRadius);
+					else out << g17(query.m_squaredRadius);     // projection trees: the radius is not a multiple of 1/16
 					}
+				}
+				if (w->kind != "kd") {
+					out << " lb="; bool first = true; dumpBounds(w->tree.get(), q, out, first);
+					out << " fp="; first = true; dumpPlanes(w->tree.get(), q, out, first); if (first) out << "-";
 				}
 				TreeNearestNeighbors<RealVector, unsigned int> tnn(w->cls, w->tree.get());
 				RealMatrix pat(1, w->dim); row(pat, 0) = q;
